@@ -67,6 +67,7 @@ def check_wallet(case, ctx):
     st_, data = call(w.generate, acct, tuple(iv))
     if st_ == "exc":
         raise Violation("C16/generate/raised", "generate raised %r" % (data,))
+    call(decoy.generate, acct, tuple(iv))      # must not change the record already handed out
     for sec_name in ("BIP44", "BIP49", "BIP84"):
         blk = data[sec_name]
         keys = blk["account_extended_keys"]
